@@ -3,6 +3,7 @@ package main
 import (
 	"go/ast"
 	"go/token"
+	"path/filepath"
 	"strconv"
 	"strings"
 )
@@ -620,9 +621,6 @@ func (w *c04walker) cond(e ast.Expr) string {
 func init() {
 	register("C04", func(x *X) error {
 		x.UseNormalizedAST()
-		// the tag matcher of setWeight/delRoute, translated from the source on every run (xlate.go);
-		// Props/C04Xlate.lean proves the translation equal to the model's containsAll
-		xlateEmit(x, "route/route.go", []xlSpec{{"", "contains", "XContains", nil, nil, "Bool"}})
 		w := &c04walker{x: x, dir: "route", global: map[string]string{}, stack: map[string]bool{}}
 
 		// package-level error variables are named by their message
@@ -667,6 +665,39 @@ func init() {
 			x.fail("the functions receiving RouteDef.Weight from the add / weight commands were not found")
 			return nil
 		}
+		// the tag matcher of setWeight/delRoute — found by role: the unexported function setWeight calls with
+		// `<target>.Tags` as first argument — translated from the source on every run (xlate.go);
+		// Props/C04Xlate.lean proves the translation equal to the model's containsAll. Where it is not found or
+		// not translatable the change detector fires (the generated module then lacks a usable XContains).
+		matcher := ""
+		ast.Inspect(setWeight.Body, func(n ast.Node) bool {
+			if c, ok := n.(*ast.CallExpr); ok && len(c.Args) == 2 && matcher == "" {
+				if id, ok := c.Fun.(*ast.Ident); ok && !ast.IsExported(id.Name) && strings.HasSuffix(x.src(c.Args[0]), ".Tags") {
+					if x.anyFuncDecl("route", id.Name) != nil {
+						matcher = id.Name
+					}
+				}
+			}
+			return true
+		})
+		matcherFile := ""
+		if matcher != "" {
+			for _, f := range x.files("route") {
+				for _, d := range f.Decls {
+					if fd, ok := d.(*ast.FuncDecl); ok && fd.Recv == nil && fd.Name.Name == matcher && fd.Body != nil {
+						if rel, err := filepath.Rel(x.repo, x.fset.Position(f.Pos()).Filename); err == nil {
+							matcherFile = rel
+						}
+					}
+				}
+			}
+		}
+		if matcherFile != "" {
+			xlateEmit(x, matcherFile, []xlSpec{{"", matcher, "XContains", nil, nil, "Bool"}})
+		} else {
+			x.defStrList("xlateNotes", []string{"the tag matcher called by setWeight was not found"})
+		}
+
 		// the weighing function: called by both
 		var weigh *ast.FuncDecl
 		a, b := w.directCallees(addTarget), w.directCallees(setWeight)
